@@ -853,4 +853,11 @@ def r11(ctx):
     relabel(ctx, "C14.R11", lambda c: c01.closer_matches_opener(c, "C14.R11"), c01.r7)
 
 
-RULES = [("C14.R1", r1), ("C14.R2", r2), ("C14.R3", r3), ("C14.R4", r4), ("C14.R5", r5), ("C14.R6", r6), ("C14.R7", r7), ("C14.R8", r8), ("C14.R9", r9), ("C14.R10", r10), ("C14.R11", r11)]
+
+def f1(ctx):
+    """generic same-name parameter forwarding over this property's modules (see shared.generic_forwarding)."""
+    from . import shared as _sh
+    _sh.generic_forwarding(ctx, "C14.F1", _sh.PROPERTY_MODULES["C14"])
+
+
+RULES = [("C14.R1", r1), ("C14.R2", r2), ("C14.R3", r3), ("C14.R4", r4), ("C14.R5", r5), ("C14.R6", r6), ("C14.R7", r7), ("C14.R8", r8), ("C14.R9", r9), ("C14.R10", r10), ("C14.R11", r11), ("C14.F1", f1)]
